@@ -1,8 +1,22 @@
 // Command omaptrace drives omap.Map of the working tree.  One case per line:
 //
-//	M <cmp> <kind> <ops>  |  <item>;<item>;...
+//	M <cmp> <kind> <ops>  |  <item>;<item>;...      Map[int,int]
+//	T <cmp> <kind> <ops>  |  <item>;<item>;...      Map[string,string]; a key or value token is
+//	                                                [a-z]+ or "~" (the empty string = the zero value)
 //
-// cmp   n natural order (omap.New), r reversed, m<k> keys compared modulo k (omap.NewFunc)
+// cmp (M)  n natural order (omap.New, i.e. cmp.Compare); every other one goes through omap.NewFunc:
+//
+//	r reversed, m<k> keys compared modulo k          -- results -1/0/+1
+//	a  a-b     t 3*(a-b)     h (a-b)<<32             -- ascending, arbitrary magnitudes
+//	A  b-a     D 7*(b-a)                             -- descending, arbitrary magnitudes
+//	M<k> (a mod k)-(b mod k)   R<k> (b mod k)-(a mod k)   -- coarser than identity, arbitrary magnitudes
+//	x  MinInt / 0 / MaxInt     X the same reversed   -- extreme magnitudes (a negation would overflow)
+//
+// cmp (T)  n natural (omap.New); r strings.Compare(b,a); l len(a)-len(b); L len(b)-len(a);
+//
+//	b first differing byte difference, else length difference; B the same reversed;
+//	f difference of the first bytes only (0 for the empty string)
+//
 // kind  n a Map from New/NewFunc, z the zero Map
 // ops   ';'-separated; a leading '@' runs the op through a COPY of the Map value taken at the start
 //
@@ -20,6 +34,7 @@
 package main
 
 import (
+	"math"
 	"strconv"
 	"strings"
 	"time"
@@ -28,12 +43,28 @@ import (
 	"verif/harness/internal/tr"
 )
 
+func nat(a, b int) int {
+	if a < b {
+		return -1
+	} else if a > b {
+		return 1
+	}
+	return 0
+}
+
 func cmpFor(s string) func(a, b int) int {
-	nat := func(a, b int) int {
+	modk := func() func(int) int {
+		k, _ := strconv.Atoi(s[1:])
+		if k <= 0 {
+			k = 1
+		}
+		return func(a int) int { return ((a % k) + k) % k }
+	}
+	ext := func(a, b int) int {
 		if a < b {
-			return -1
+			return math.MinInt
 		} else if a > b {
-			return 1
+			return math.MaxInt
 		}
 		return 0
 	}
@@ -42,40 +73,105 @@ func cmpFor(s string) func(a, b int) int {
 		return nat
 	case s == "r":
 		return func(a, b int) int { return nat(b, a) }
+	case s == "a":
+		return func(a, b int) int { return a - b }
+	case s == "t":
+		return func(a, b int) int { return 3 * (a - b) }
+	case s == "h":
+		return func(a, b int) int { return (a - b) << 32 }
+	case s == "A":
+		return func(a, b int) int { return b - a }
+	case s == "D":
+		return func(a, b int) int { return 7 * (b - a) }
+	case s == "x":
+		return ext
+	case s == "X":
+		return func(a, b int) int { return ext(b, a) }
 	case strings.HasPrefix(s, "m"):
-		k, _ := strconv.Atoi(s[1:])
-		if k <= 0 {
-			k = 1
-		}
-		md := func(a int) int { return ((a % k) + k) % k }
+		md := modk()
 		return func(a, b int) int { return nat(md(a), md(b)) }
+	case strings.HasPrefix(s, "M"):
+		md := modk()
+		return func(a, b int) int { return md(a) - md(b) }
+	case strings.HasPrefix(s, "R"):
+		md := modk()
+		return func(a, b int) int { return md(b) - md(a) }
 	}
 	panic("bad comparator " + s)
 }
 
-type iter = omap.Iter[int, int]
-
-func exec(in string) string {
-	f := strings.Fields(in)
-	if len(f) < 3 || f[0] != "M" {
-		return "?"
-	}
-	opsField := ""
-	if len(f) >= 4 {
-		opsField = f[3]
-	}
-	var items []string
-	res := tr.Guard(20*time.Second, func() {
-		var m omap.Map[int, int]
-		if f[2] == "n" {
-			if f[1] == "n" {
-				m = omap.New[int, int]()
-			} else {
-				m = omap.NewFunc[int, int](cmpFor(f[1]))
+func strCmpFor(s string) func(a, b string) int {
+	bytewise := func(a, b string) int {
+		for i := 0; i < len(a) && i < len(b); i++ {
+			if a[i] != b[i] {
+				return int(a[i]) - int(b[i])
 			}
 		}
+		return len(a) - len(b)
+	}
+	first := func(a string) int {
+		if a == "" {
+			return 0
+		}
+		return int(a[0])
+	}
+	switch s {
+	case "n":
+		return strings.Compare
+	case "r":
+		return func(a, b string) int { return strings.Compare(b, a) }
+	case "l":
+		return func(a, b string) int { return len(a) - len(b) }
+	case "L":
+		return func(a, b string) int { return len(b) - len(a) }
+	case "b":
+		return bytewise
+	case "B":
+		return func(a, b string) int { return bytewise(b, a) }
+	case "f":
+		return func(a, b string) int { return first(a) - first(b) }
+	}
+	panic("bad string comparator " + s)
+}
+
+// codec: how keys/values are written in trace lines
+type codec[K any] struct {
+	parse  func(string) K
+	show   func(K) string
+	poison K
+}
+
+var intCodec = codec[int]{
+	parse:  func(s string) int { n, _ := strconv.Atoi(s); return n },
+	show:   strconv.Itoa,
+	poison: -7777,
+}
+
+var strCodec = codec[string]{
+	parse: func(s string) string {
+		if s == "~" {
+			return ""
+		}
+		return s
+	},
+	show: func(s string) string {
+		if s == "" {
+			return "~"
+		}
+		return s
+	},
+	poison: "POISON",
+}
+
+func run[K, V any](opsField string, zero bool, mk func() omap.Map[K, V], kc codec[K], vc codec[V]) string {
+	var items []string
+	res := tr.Guard(20*time.Second, func() {
+		var m omap.Map[K, V]
+		if !zero {
+			m = mk()
+		}
 		cp := m // a copy of the Map value: shares the contents
-		var regs [4]*iter
+		var regs [4]*omap.Iter[K, V]
 		var fresh [4]bool // positioned since the last edit
 		used := 0
 		touch := func(r int) {
@@ -91,7 +187,7 @@ func exec(in string) string {
 					s = append(s, "x")
 					continue
 				}
-				s = append(s, tr.B(it.IsValid())+","+strconv.Itoa(it.Key())+","+strconv.Itoa(it.Value()))
+				s = append(s, tr.B(it.IsValid())+","+kc.show(it.Key())+","+vc.show(it.Value()))
 			}
 			return strings.Join(s, "/")
 		}
@@ -114,7 +210,6 @@ func exec(in string) string {
 				continue
 			}
 			arg := op[1:]
-			num := func(s string) int { n, _ := strconv.Atoi(s); return n }
 			switch op[0] {
 			case 's':
 				kvs := strings.SplitN(arg, "=", 2)
@@ -122,11 +217,11 @@ func exec(in string) string {
 					items = append(items, "?")
 					continue
 				}
-				ok := h.Set(num(kvs[0]), num(kvs[1]))
+				ok := h.Set(kc.parse(kvs[0]), vc.parse(kvs[1]))
 				edited()
 				items = append(items, tr.B(ok))
 			case 'd':
-				ok := h.Delete(num(arg))
+				ok := h.Delete(kc.parse(arg))
 				edited()
 				items = append(items, tr.B(ok))
 			case 'c':
@@ -134,8 +229,8 @@ func exec(in string) string {
 				edited()
 				items = append(items, "-")
 			case 'g':
-				v, ok := h.GetOK(num(arg))
-				items = append(items, strconv.Itoa(h.Get(num(arg)))+","+strconv.Itoa(v)+","+tr.B(ok))
+				v, ok := h.GetOK(kc.parse(arg))
+				items = append(items, vc.show(h.Get(kc.parse(arg)))+","+vc.show(v)+","+tr.B(ok))
 			case 'l':
 				items = append(items, strconv.Itoa(h.Len()))
 			case 'k':
@@ -143,9 +238,18 @@ func exec(in string) string {
 				if ks == nil {
 					items = append(items, "nil")
 				} else {
-					items = append(items, tr.Ints(ks))
+					out := make([]string, len(ks))
+					for i, k := range ks {
+						out[i] = kc.show(k)
+					}
+					if len(out) == 0 {
+						items = append(items, "empty") // a non-nil empty slice
+					} else {
+						items = append(items, strings.Join(out, ","))
+					}
+					ks = ks[:cap(ks)]
 					for i := range ks { // the result is the caller's: overwriting it must not reach the map
-						ks[i] = -7777
+						ks[i] = kc.poison
 					}
 				}
 			case 't':
@@ -156,9 +260,11 @@ func exec(in string) string {
 					continue
 				}
 				r := int(arg[0] - '0')
-				key := 0
+				var key K
 				if i := strings.IndexByte(arg, '='); i >= 0 {
-					key = num(arg[i+1:])
+					key = kc.parse(arg[i+1:])
+				} else {
+					key = kc.parse("0")
 				}
 				switch op[0] {
 				case 'F':
@@ -190,7 +296,7 @@ func exec(in string) string {
 						items = append(items, "stale")
 						continue
 					}
-					var got *iter
+					var got *omap.Iter[K, V]
 					if op[0] == 'n' {
 						got = regs[r].Next()
 					} else {
@@ -209,7 +315,7 @@ func exec(in string) string {
 					it := regs[r]
 					var es []string
 					for step := 0; it.IsValid() && step < h.Len()+2; step++ {
-						es = append(es, strconv.Itoa(it.Key())+"="+strconv.Itoa(it.Value()))
+						es = append(es, kc.show(it.Key())+"="+vc.show(it.Value()))
 						if op[0] == 'N' {
 							it.Next()
 						} else {
@@ -233,22 +339,41 @@ func exec(in string) string {
 	return strings.Join(items, ";")
 }
 
+func exec(in string) string {
+	f := strings.Fields(in)
+	if len(f) < 3 || (f[0] != "M" && f[0] != "T") {
+		return "?"
+	}
+	opsField := ""
+	if len(f) >= 4 {
+		opsField = f[3]
+	}
+	zero := f[2] != "n"
+	if f[0] == "M" {
+		return run(opsField, zero, func() omap.Map[int, int] {
+			if f[1] == "n" {
+				return omap.New[int, int]()
+			}
+			return omap.NewFunc[int, int](cmpFor(f[1]))
+		}, intCodec, intCodec)
+	}
+	return run(opsField, zero, func() omap.Map[string, string] {
+		if f[1] == "n" {
+			return omap.New[string, string]()
+		}
+		return omap.NewFunc[string, string](strCmpFor(f[1]))
+	}, strCodec, strCodec)
+}
+
 // ---------------------------------------------------------------- generation
 
 type gen struct{ g *tr.G }
 
-func (x *gen) history(space, n int, iters bool) []string {
+// history: key() yields a key token (mostly inside the populated range, sometimes below the
+// minimum or above the maximum), val() a value token
+func (x *gen) history(key, val func() string, n int, iters bool) []string {
 	r := x.g.R
 	var ops []string
-	key := func() string {
-		switch r.Intn(12) {
-		case 0:
-			return strconv.Itoa(-1 - r.Intn(3)) // below every stored key (mostly)
-		case 1:
-			return strconv.Itoa(space + r.Intn(3)) // above
-		}
-		return strconv.Itoa(r.Intn(space))
-	}
 	at := func() string {
 		if r.Chance(1, 5) {
 			return "@"
@@ -259,7 +384,7 @@ func (x *gen) history(space, n int, iters bool) []string {
 	for i := 0; i < n; i++ {
 		switch c := r.Intn(100); {
 		case c < 30:
-			ops = append(ops, at()+"s"+key()+"="+strconv.Itoa(r.Intn(1000)))
+			ops = append(ops, at()+"s"+key()+"="+val())
 			live = [4]bool{}
 		case c < 42:
 			ops = append(ops, at()+"d"+key())
@@ -308,8 +433,66 @@ func (x *gen) history(space, n int, iters bool) []string {
 	return ops
 }
 
+func (x *gen) intKey(space int) func() string {
+	r := x.g.R
+	return func() string {
+		switch r.Intn(12) {
+		case 0:
+			return strconv.Itoa(-1 - r.Intn(3)) // below every stored key (mostly)
+		case 1:
+			return strconv.Itoa(space + r.Intn(3)) // above
+		}
+		return strconv.Itoa(r.Intn(space))
+	}
+}
+
+func (x *gen) intVal() string { return strconv.Itoa(x.g.R.Intn(1000)) }
+
+// string keys over the first `letters` letters up to length 3, the empty string included
+func (x *gen) strKey(letters int) func() string {
+	r := x.g.R
+	return func() string {
+		n := r.Intn(4)
+		if n == 0 {
+			return "~"
+		}
+		b := make([]byte, n)
+		for i := range b {
+			b[i] = byte('a' + r.Intn(letters))
+		}
+		return string(b)
+	}
+}
+
+func (x *gen) strVal() string {
+	r := x.g.R
+	if r.Chance(1, 8) {
+		return "~"
+	}
+	return string([]byte{byte('p' + r.Intn(8)), byte('p' + r.Intn(8))})
+}
+
+// the comparators of the M kind other than the natural one, by family
+var magCmps = []string{"a", "t", "h", "A", "D", "x", "X"}
+
+func (x *gen) customCmp() (string, []string) {
+	r := x.g.R
+	switch r.Intn(8) {
+	case 0:
+		return "r", []string{"custom-comparator"}
+	case 1:
+		return "m" + strconv.Itoa(3+r.Intn(20)), []string{"custom-comparator", "coarser-than-identity"}
+	case 2:
+		return "M" + strconv.Itoa(3+r.Intn(20)), []string{"custom-comparator", "coarser-than-identity", "comparator-magnitudes"}
+	case 3:
+		return "R" + strconv.Itoa(3+r.Intn(20)), []string{"custom-comparator", "coarser-than-identity", "comparator-magnitudes"}
+	default:
+		return tr.Pick(r, magCmps), []string{"custom-comparator", "comparator-magnitudes"}
+	}
+}
+
 func main() {
-	tr.Main("C04: exhaustive histories of up to 3 (quick) / 4 (thorough) Set/Delete/Clear over 3 keys each followed by Len, Keys, String, Get of every key and First/Last/Seek of every target (below, present, between, above) with full Next and Prev sweeps; random histories of up to 60 operations over small and large key spaces under natural, reversed and modular comparators mixing edits with lookups, Keys, String, iterators in 3 registers (First, Last, Seek, Iter.Seek re-synchronization after edits, Next/Prev steps and sweeps from seek positions), a fifth of the operations through a copy of the Map value; ascending/descending bulk loads to 300 keys; the zero Map with every read operation and with Set. A case is non-trivial when it contains at least one edit and one observation; distinct = distinct input lines.",
+	tr.Main("C04: exhaustive histories of up to 3 (quick) / 4 (thorough) Set/Delete/Clear over 3 keys each followed by Len, Keys, String, Get of every key and First/Last/Seek of every target (below, present, between, above) with full Next and Prev sweeps, under cmp.Compare and (one level shallower) under comparators returning arbitrary magnitudes (a-b, 7*(b-a), MinInt/MaxInt); the same battery on Map[string,string] with the empty string as a key and as a value; random histories of up to 60 operations over small and large key spaces under natural, reversed, modular, magnitude (a-b, 3*(a-b), (a-b)<<32, b-a, 7*(b-a), modular differences, MinInt/MaxInt) comparators and on string keys under strings.Compare, reversed, length-difference, byte-difference and first-byte comparators, mixing edits with lookups, Keys, String, iterators in 3 registers (First, Last, Seek, Iter.Seek re-synchronization after edits, Next/Prev steps and sweeps from seek positions), a fifth of the operations through a copy of the Map value; ascending/descending bulk loads to 300 keys; the zero Map (both key types) with every read operation, Delete, Clear, every iterator constructor and move, and with Set. A case is non-trivial when it contains at least one edit and one observation; distinct = distinct input lines.",
 		exec, func(g *tr.G) {
 			x := &gen{g}
 			r := g.R
@@ -320,25 +503,48 @@ func main() {
 				battery += ";S0=" + tgt + ";N0;S0=" + tgt + ";P0;S1=" + tgt + ";p1;n1;n1"
 			}
 			battery += ";F0;N0;L0;P0;F0;p0;L1;n1;F2;e2=20;n2;e2=99;e2=0"
-			var rec func(cur []string, d int)
-			rec = func(cur []string, d int) {
-				x.g.Emit("M n n "+strings.Join(append(append([]string(nil), cur...), battery), ";"), len(cur) > 0, "exhaustive")
+			var rec func(head string, edits []string, battery string, cur []string, d int, tags ...string)
+			rec = func(head string, edits []string, battery string, cur []string, d int, tags ...string) {
+				x.g.Emit(head+strings.Join(append(append([]string(nil), cur...), battery), ";"), len(cur) > 0, tags...)
 				if d == 0 {
 					return
 				}
 				for _, e := range edits {
-					rec(append(cur[:len(cur):len(cur)], e), d-1)
+					rec(head, edits, battery, append(cur[:len(cur):len(cur)], e), d-1, tags...)
 				}
 			}
-			rec(nil, g.Scale(3, 4))
+			rec("M n n ", edits, battery, nil, g.Scale(3, 4), "exhaustive")
+			for _, c := range []string{"a", "D", "x", "M7"} {
+				rec("M "+c+" n ", edits, battery, nil, g.Scale(2, 3), "exhaustive", "custom-comparator", "comparator-magnitudes")
+			}
+			// the same on string keys and values; "~" (the empty string) is a key and a value
+			sedits := []string{"s~=p", "sb=q", "sbb=~", "sb=r", "d~", "db", "dbb", "c"}
+			sbattery := "l;k;t;g~;gb;gbb;ga"
+			for _, tgt := range []string{"~", "a", "b", "ba", "bb", "c"} {
+				sbattery += ";S0=" + tgt + ";N0;S0=" + tgt + ";P0;S1=" + tgt + ";p1;n1;n1"
+			}
+			sbattery += ";F0;N0;L0;P0;F0;p0;L1;n1;F2;e2=b;n2;e2=zz;e2=~"
+			for _, c := range []string{"n", "b", "B", "r"} {
+				rec("T "+c+" n ", sedits, sbattery, nil, g.Scale(2, 3), "exhaustive", "string-keys")
+			}
 			// 2. the zero Map: every read, Delete, Clear, iterators; Set panics
-			g.Emit("M n z l;k;t;g5;d5;c;l;F0;L1;S2=5;n0;p1;n2;N0;P1;e2=3;@l;@k;@g1", true, "zero-map")
+			g.Emit("M n z l;k;t;g5;d5;c;l;F0;L1;S2=5;n0;p1;n2;N0;P1;e2=3;e0=1;e1=9;N2;@l;@k;@t;@g1;@d1;@c;@F0;@L1;@S2=0", true, "zero-map")
 			g.Emit("M n z l;s5=1;l", true, "zero-map", "zero-map-set")
 			g.Emit("M r z F0;n0;p0;k;t;@s1=1", true, "zero-map", "zero-map-set")
 			g.Emit("M n n l;k;t;g5;d5;c;F0;L1;S2=5;n0;p1;n2;N0;P1", true, "empty-map")
+			g.Emit("T n z l;k;t;g~;ga;d~;da;c;l;F0;L1;S2=a;S3=~;n0;p1;n2;p3;N0;P1;e2=b;e3=~;@l;@k;@t;@ga", true, "zero-map", "string-keys")
+			g.Emit("T n z l;sa=p;l", true, "zero-map", "zero-map-set", "string-keys")
+			g.Emit("T l z F0;n0;k;t;@s~=~", true, "zero-map", "zero-map-set", "string-keys")
+			g.Emit("T n n l;k;t;g~;d~;c;F0;L1;S2=~;n0;p1;n2;N0;P1", true, "empty-map", "string-keys")
 			// 2b. random histories on the zero Map: reads, Delete, Clear and iterators (Set only as the last op)
 			for i := 0; i < g.Scale(200, 3000); i++ {
-				ops := x.history(4+r.Intn(8), 5+r.Intn(25), true)
+				strs := i%4 == 3
+				var ops []string
+				if strs {
+					ops = x.history(x.strKey(3), x.strVal, 5+r.Intn(25), true)
+				} else {
+					ops = x.history(x.intKey(4+r.Intn(8)), x.intVal, 5+r.Intn(25), true)
+				}
 				for j, o := range ops {
 					o2 := strings.TrimPrefix(o, "@")
 					if strings.HasPrefix(o2, "s") {
@@ -350,45 +556,71 @@ func main() {
 				}
 				tags := []string{"zero-map"}
 				if r.Chance(1, 3) {
-					ops = append(ops, "s"+strconv.Itoa(r.Intn(9))+"=1", "l")
+					if strs {
+						ops = append(ops, "sa=p", "l")
+					} else {
+						ops = append(ops, "s"+strconv.Itoa(r.Intn(9))+"=1", "l")
+					}
 					tags = append(tags, "zero-map-set")
 				}
-				x.g.Emit("M "+[]string{"n", "r", "m5"}[r.Intn(3)]+" z "+strings.Join(ops, ";"), true, tags...)
+				if strs {
+					x.g.Emit("T "+[]string{"n", "l", "b"}[r.Intn(3)]+" z "+strings.Join(ops, ";"), true, append(tags, "string-keys")...)
+				} else {
+					x.g.Emit("M "+[]string{"n", "r", "m5", "a", "x"}[r.Intn(5)]+" z "+strings.Join(ops, ";"), true, tags...)
+				}
 			}
-			// 3. random histories
+			// 3. random histories, int keys
 			for i := 0; i < g.Scale(9000, 90000); i++ {
 				cmps := "n"
-				switch r.Intn(5) {
-				case 0:
-					cmps = "r"
-				case 1:
-					cmps = "m" + strconv.Itoa(3+r.Intn(20))
+				tags := []string{"random-history"}
+				if r.Chance(1, 2) {
+					var t []string
+					cmps, t = x.customCmp()
+					tags = append(tags, t...)
 				}
 				space := 4 + r.Intn(12)
 				if r.Chance(1, 4) {
 					space = 30 + r.Intn(200)
 				}
 				n := 5 + r.Intn(55)
-				ops := x.history(space, n, true)
-				tags := []string{"random-history"}
-				if cmps != "n" {
+				ops := x.history(x.intKey(space), x.intVal, n, true)
+				x.g.Emit("M "+cmps+" n "+strings.Join(ops, ";"), true, tags...)
+			}
+			// 3b. random histories, string keys and values
+			for i := 0; i < g.Scale(2500, 25000); i++ {
+				cmps := []string{"n", "n", "r", "l", "L", "b", "B", "f"}[r.Intn(8)]
+				tags := []string{"random-history", "string-keys"}
+				switch cmps {
+				case "l", "L", "f":
+					tags = append(tags, "custom-comparator", "coarser-than-identity", "comparator-magnitudes")
+				case "b", "B":
+					tags = append(tags, "custom-comparator", "comparator-magnitudes")
+				case "r":
 					tags = append(tags, "custom-comparator")
 				}
-				x.g.Emit("M "+cmps+" n "+strings.Join(ops, ";"), true, tags...)
+				ops := x.history(x.strKey(2+r.Intn(3)), x.strVal, 5+r.Intn(45), true)
+				x.g.Emit("T "+cmps+" n "+strings.Join(ops, ";"), true, tags...)
 			}
 			// 4. seek battery after arbitrary edits: every target from below the minimum to above the maximum
 			for i := 0; i < g.Scale(900, 6000); i++ {
 				space := 6 + r.Intn(14)
-				ops := x.history(space, 10+r.Intn(30), false)
+				ops := x.history(x.intKey(space), x.intVal, 10+r.Intn(30), false)
 				for k := -2; k <= space+2; k++ {
 					ks := strconv.Itoa(k)
 					ops = append(ops, "S0="+ks, string("NP"[r.Intn(2)])+"0")
 					if r.Chance(1, 3) {
 						ops = append(ops, "S1="+ks, "p1", "p1", "n1")
 					}
+					if r.Chance(1, 4) {
+						ops = append(ops, "g"+ks)
+					}
 				}
-				cmps := []string{"n", "n", "r", "m7", "m11"}[r.Intn(5)]
-				x.g.Emit("M "+cmps+" n "+strings.Join(ops, ";"), true, "seek-every-target")
+				cmps := []string{"n", "n", "r", "m7", "m11", "a", "A", "t", "D", "M7", "R11", "x", "X", "h"}[r.Intn(14)]
+				tags := []string{"seek-every-target"}
+				if cmps != "n" {
+					tags = append(tags, "custom-comparator")
+				}
+				x.g.Emit("M "+cmps+" n "+strings.Join(ops, ";"), true, tags...)
 			}
 			// 5. bulk loads (rebalancing on the way), then deletes from both ends and sweeps
 			for i := 0; i < g.Scale(8, 120); i++ {
@@ -405,7 +637,11 @@ func main() {
 					ops = append(ops, "d"+strconv.Itoa(r.Intn(2*n)))
 				}
 				ops = append(ops, "l", "k", "F0", "N0", "L0", "P0", "S0="+strconv.Itoa(n), "N0", "S1="+strconv.Itoa(n+1), "P1", "S2="+strconv.Itoa(5*n), "S2=-1", "N2")
-				x.g.Emit("M n n "+strings.Join(ops, ";"), true, "bulk-load")
+				for k := 0; k < 12; k++ {
+					ops = append(ops, "g"+strconv.Itoa(r.Intn(2*n+4)-2))
+				}
+				cmps := []string{"n", "a", "t", "x"}[i%4]
+				x.g.Emit("M "+cmps+" n "+strings.Join(ops, ";"), true, "bulk-load")
 			}
 		})
 }
